@@ -129,3 +129,36 @@ Example C01_example_nontrivial :
        [mkConj false [ex_def]; mkConj false [EStruct [(HField (LReg 1%N) FRegular, EScalar (SAtom (AInt 1%Z)))]]]) = true.
 Proof. vm_compute. repeat split. Qed.
 Print Assumptions C01_example_nontrivial.
+
+(* ==== NestCUE (Core/Nest.v): structs whose fields hold disjunctions ==== *)
+From Verif Require Import Core.Disj Core.DisjGen Core.Nest Core.NestLaws.
+
+(* the value of a conjunction of terms (literals with disjunction-valued fields, scalars) does not depend
+   on the order of the terms: every field's value/default outcome, presence and the error status are EQUAL *)
+Theorem C01_nest_term_order : forall labs atoms fuel ts ts',
+  Permutation ts ts' -> alt_val labs atoms fuel ts = alt_val labs atoms fuel ts'.
+Proof. exact alt_val_perm. Qed.
+Print Assumptions C01_nest_term_order.
+
+(* ... nor does the value/default pair of a node depend on the order of its plain terms *)
+Theorem C01_nest_plain_perm : forall labs atoms fuel plain plain' ds,
+  Permutation plain plain' -> nest_pair labs atoms fuel plain ds = nest_pair labs atoms fuel plain' ds.
+Proof. exact nest_plain_perm. Qed.
+Print Assumptions C01_nest_plain_perm.
+
+(* splitting a literal into two (and merging two into one): {fs1, fs2} = {fs1} & {fs2} *)
+Theorem C01_nest_split_literal : forall labs atoms fuel fs1 fs2 ts,
+  alt_val labs atoms fuel (TLit (fs1 ++ fs2) :: ts) = alt_val labs atoms fuel (TLit fs1 :: TLit fs2 :: ts).
+Proof. exact alt_val_split_literal. Qed.
+Print Assumptions C01_nest_split_literal.
+
+Example C01_nest_example :
+  let d12 := [(true, EScalar (SAtom (AInt 1%Z))); (false, EScalar (SAtom (AInt 2%Z)))] in
+  let d23 := [(false, EScalar (SAtom (AInt 2%Z))); (false, EScalar (SAtom (AInt 3%Z)))] in
+  let a := TLit [(LReg 0%N, mkFval [] [d12])] in
+  let b := TLit [(LReg 0%N, mkFval [] [d23]); (LReg 1%N, mkFval [EScalar (SKind KInt)] [])] in
+  alt_val [LReg 0%N; LReg 1%N] [AInt 1%Z; AInt 2%Z; AInt 3%Z] 5 [a; b] =
+  alt_val [LReg 0%N; LReg 1%N] [AInt 1%Z; AInt 2%Z; AInt 3%Z] 5 [b; a] /\
+  aval_err (alt_val [LReg 0%N; LReg 1%N] [AInt 1%Z; AInt 2%Z; AInt 3%Z] 5 [a; b]) = false.
+Proof. vm_compute. split; reflexivity. Qed.
+Print Assumptions C01_nest_example.
